@@ -153,7 +153,7 @@ int main(int argc, char **argv) {
 	static const int algos[] = { MTBL_COMPRESSION_SNAPPY, MTBL_COMPRESSION_ZLIB, MTBL_COMPRESSION_LZ4, MTBL_COMPRESSION_LZ4HC, MTBL_COMPRESSION_ZSTD, MTBL_COMPRESSION_NONE, 6, -1 };
 	uint64_t idx = 0;
 	if (!strcmp(mode, "small")) {
-		size_t maxlen = vh_thorough ? 300 : 64;
+		size_t maxlen = vh_thorough ? 1000 : 64;
 		for (int ai = 0; ai < 8; ai++) {
 			int lv[64]; int nl = levels_for(algos[ai], lv, vh_thorough);
 			for (size_t len = 0; len <= maxlen; len++) {
